@@ -79,12 +79,13 @@ type Enc struct {
 	keptInv    map[loopKey][]*Clause
 	candByLoop map[loopKey][]*Clause
 	faultPoints []string
+	usedAssumes map[string]bool
 }
 
 func newEnc(P *Program, U *Universe, fn *ssa.Function) *Enc {
 	e := &Enc{P: P, U: U, Top: fn, Key: funcKey(fn),
 		decls: map[string]Sort{}, defs: map[string]Term{}, factsBy: map[string][]int{},
-		names: map[string]int{}, famSort: map[string]Sort{}, usedInvs: map[string]bool{}}
+		names: map[string]int{}, famSort: map[string]Sort{}, usedInvs: map[string]bool{}, usedAssumes: map[string]bool{}}
 	e.Spec = P.Specs.Funcs[e.Key]
 	if e.Spec != nil && e.Spec.Mode == "bv64" {
 		e.bv = true
